@@ -570,6 +570,7 @@ def run_pq(c, binary):
                      found_input=False)
     crosscheck(c, hists, model, sorted(i for i in cross_idx if i in model))
     run_pq_large(c, binary)
+    run_pq_cap(c, binary, hists)
 
 
 # --------------------------------------------------------------------------- large bounded capacities
@@ -749,6 +750,69 @@ def run_pq_large(c, binary):
                                   "observed": "every operation's answer incl. Len at the phase boundaries; no array dump"}
 
 
+# --------------------------------------------------------------------------- capacity of p.data (HeapCapModel)
+
+def run_pq_cap(c, binary, hists):
+    """The memory-level model (HeapCapModel: p.data as a slice header over backing arrays, append with a
+    capacity oracle, slice.Shrink by calCapacity) against cap(p.data) of the implementation after EVERY
+    operation.  Two passes: the implementation first; its capacity after each successful Enqueue is the
+    oracle the model uses IF that append has to grow (otherwise the model ignores it), so what is really
+    compared is: no growth while len < cap, and the Shrink rule (thresholds 64 / 2048, c/2, 5c/8, never for
+    bounded queues) after every Dequeue."""
+    lines = ["%s %s %d %s" % (h[1], h[2], h[3], " ".join(o.rstrip("~") for o in h[4])) for h in hists]
+    impl = []
+    for i in range(0, len(lines), 400):
+        chunk = lines[i:i + 400]
+        try:
+            rc, got, err = c.run_impl(binary, ["c05pq", "cap"], "\n".join(chunk) + "\n", timeout=300)
+        except subprocess.TimeoutExpired:
+            got = []
+        if len(got) < len(chunk):          # a hang / crash is the business of the main pass
+            c.cov["pq_cap"] = {"skipped": "the implementation did not answer every history (see the main pass)"}
+            return
+        impl += got
+    mlines, shrinks, grows = [], 0, 0
+    for h, il in zip(hists, impl):
+        toks = []
+        prev = None
+        for o, e in zip(h[4], parse_line(il)):
+            o = o.rstrip("~")
+            if o[0] == "e" and e[0] == "ok" and INT_RE.match(e[2]):
+                toks.append("%s^%s" % (o, e[2]))
+            else:
+                toks.append(o)
+            if INT_RE.match(e[2]):
+                cur = int(e[2])
+                if prev is not None and cur < prev:
+                    shrinks += 1
+                if prev is not None and cur > prev:
+                    grows += 1
+                prev = cur
+        mlines.append("%s %s %d %s" % (h[1], h[2], h[3], " ".join(toks)))
+    model = c.run_model("heapcap", "\n".join(mlines) + "\n")
+    bad = [i for i in range(len(hists)) if i >= len(model) or impl[i] != model[i]]
+    c.cov["pq_cap"] = {"histories": len(hists), "agree": len(hists) - len(bad), "shrink_reallocations_seen": shrinks,
+                       "append_reallocations_seen": grows, "model": "HeapCapModel (extracted), oracle = implementation's cap only for growing appends"}
+    c.cov["traces_validated_against_impl"] += len(hists) - len(bad)
+    for i in bad[:3]:
+        h = hists[i]
+        ie, me = parse_line(impl[i]), parse_line(model[i]) if i < len(model) else []
+        k = next((j for j in range(max(len(ie), len(me))) if j >= len(ie) or j >= len(me) or ie[j] != me[j]), 0)
+        opn = OPNAME.get(h[4][k][0], "?") if k < len(h[4]) else "?"
+        only_cap = k < len(ie) and k < len(me) and ie[k][:2] == me[k][:2]
+        c.report("C05:pq:%s:%s" % (opn, "cap-differs-from-model" if only_cap else "answer-differs-from-cap-model"),
+                 "PriorityQueue: after %s cap(p.data) is %s, the memory-level model (append / slice.Shrink rule) gives %s"
+                 % (opn, ie[k][2] if k < len(ie) else "?", me[k][2] if k < len(me) else "?") if only_cap else
+                 "PriorityQueue: the implementation and HeapCapModel disagree on the answer / Len after %s" % opn,
+                 {"kind": "correspondence", "model": "coq/theories/model/HeapCapModel.v", "case": mlines[i][:4000],
+                  "first_divergence": {"op_index": k, "implementation": "|".join(ie[k]) if k < len(ie) else None,
+                                       "model": "|".join(me[k]) if k < len(me) else None},
+                  "theorems_not_transferring": ["cap_capacity_follows_shrink_rule", "cap_dequeue_thresholds",
+                                                "cap_writes_go_to_live_array", "cap_history_refines_heap_model"],
+                  "note": "capacities are not observable through the PriorityQueue API: answers and contents are decided by the main pass"},
+                 found_input=False)
+
+
 # --------------------------------------------------------------------------- main
 
 def main(tier):
@@ -798,6 +862,9 @@ def finish(c, with_skip):
              "over-capacity Enqueues, partial drain, refill, full drain, on ascending distinct values (+ duplicates); only the answers are observed and "
              "the oracle is NOT the extracted model (quadratic at that size) but BagOracle, an O(log n) Python transcription of HeapModel.abs_stepb, "
              "validated on every run against the extracted abs_first_reject on ~360 small traces incl. perturbed answers; "
+             "capacity pass: all histories again in the harness' cap mode, cap(p.data) after every operation compared with the extracted HeapCapModel "
+             "(memory-level model; the implementation's capacity is fed back only as the oracle of a growing append, so the Shrink thresholds and "
+             "'no re-allocation while len < cap' are really compared); "
              "non-trivial = at least 3 operations and at least one Dequeue/Peek that returned a value; distinct by md5 of the history text. "
              "Skip list: see checks/c05_skip.py",
         assumptions=["slice.Shrink and append preserve the contents of the slice (capacity is not observable through PriorityQueue; modelled as identity, "
